@@ -715,6 +715,34 @@ def adopted_objects_get_settings(ctx: Ctx, rep: Report, rid: str = "R16.22") -> 
                                                     got.add(t.attr.lstrip("_"))
                 stores[q] = stores.get(q, set()) | got
                 at.setdefault(q, br)
+        if q not in stores:
+            # the per-item conversion lives in a helper (a local function, `[self._init_item(x) for x in items]`, map(), a
+            # drained generator): read the object branch from the helper's paths
+            from .common import per_item_unit
+
+            unit = per_item_unit(ctx, f)
+            if unit is not None:
+                uf, uvar, upaths, uanchor, _uh = unit
+                got2: Set[str] = set()
+                seen_obj = False
+                for path in upaths:
+                    is_obj = False
+                    for nd, lab in path:
+                        if nd.kind == "cond" and lab == "T" and isinstance(nd.ast, ast.Call) and src(nd.ast.func) == "isinstance" and len(nd.ast.args) == 2 and src(nd.ast.args[0]) == uvar:
+                            names2 = [src(e) for e in (nd.ast.args[1].elts if isinstance(nd.ast.args[1], ast.Tuple) else [nd.ast.args[1]])]
+                            if any(nm in ctx.prog.classes for nm in names2):
+                                is_obj = True
+                    if not is_obj:
+                        continue
+                    seen_obj = True
+                    for nd, _lab in path:
+                        if nd.kind == "stmt" and isinstance(nd.ast, ast.Assign):
+                            for t in nd.ast.targets:
+                                if isinstance(t, ast.Attribute) and src(t.value) == uvar:
+                                    got2.add(t.attr.lstrip("_"))
+                if seen_obj:
+                    stores[q] = got2
+                    at[q] = uanchor
     rep.instance()
     if len(stores) < 2:
         rep.note(f"{rid} the two rule-list builders are not both present as object-adopting loops (merged?) - not judged")
@@ -726,7 +754,7 @@ def adopted_objects_get_settings(ctx: Ctx, rep: Report, rid: str = "R16.22") -> 
         for q, mine, theirs, oq in ((qa, sa_, sb_, qb), (qb, sb_, sa_, qa)):
             miss = sorted(theirs - mine)
             if miss:
-                rep.violation(q, f"{snippet(at[q].test, 50)}: sets {sorted(mine)}", f"an entry adopted by this builder does not get {miss} of its container (the sibling builder {oq} sets it): it keeps the setting it was made with, and the next re-render, regroup or platform change of the ACL reads the entry with a setting that is not the ACL's", where(ctx.func(q), at[q]), inp="Acl('ip access-list extended A', items=[Ace('permit host 10.0.0.1', type='standard')]); acl.group() / acl.platform = 'nxos'")
+                rep.violation(q, f"{snippet(getattr(at[q], 'test', at[q]), 50)}: sets {sorted(mine)}", f"an entry adopted by this builder does not get {miss} of its container (the sibling builder {oq} sets it): it keeps the setting it was made with, and the next re-render, regroup or platform change of the ACL reads the entry with a setting that is not the ACL's", where(ctx.func(q), at[q]), inp="Acl('ip access-list extended A', items=[Ace('permit host 10.0.0.1', type='standard')]); acl.group() / acl.platform = 'nxos'")
 
 
 def copies_can_be_equal(ctx: Ctx, rep: Report, rid: str = "R16.26") -> None:
